@@ -56,6 +56,15 @@ var Cast = Cello(Cast, Instance(Doc,
   Cast_Name,       Cast_Brief,    Cast_Description, 
   Cast_Definition, Cast_Examples, Cast_Methods));
 
+static char* Type_Builtin_Name(struct Type* t);
+
+/*
+**  Type objects are handed to `throw` by name. The type `Terminal` is what
+**  ends an argument list, so passing it directly would cut the list short
+**  and turn the intended error into a `FormatError`.
+*/
+#define Type_Name_Arg(T) $S(Type_Builtin_Name(T))
+
 var cast(var self, var type) {
   
   struct Cast* c = instance(self, Cast);
@@ -67,7 +76,9 @@ var cast(var self, var type) {
     return self;
   } else {
     return throw(ValueError,
-      "cast expected type %s, got type %s", type_of(self), type);
+      "cast expected type %s, got type %s",
+      Type_Name_Arg(type_of(self)),
+      type_of(type) is Type ? (var)Type_Name_Arg(type) : type);
   }
   
 }
@@ -361,7 +372,7 @@ static var Type_Method_At_Offset(
   if (inst is NULL) {
     return throw(ClassError,
       "Type '%s' does not implement class '%s'",
-      self,  cls);
+      Type_Name_Arg(self), Type_Name_Arg(cls));
   }
 #endif
   
@@ -371,7 +382,8 @@ static var Type_Method_At_Offset(
   if (meth is NULL) {
     return throw(ClassError,
       "Type '%s' implements class '%s' but not the method '%s' required",
-      self,  cls, $(String, (char*)method_name));  
+      Type_Name_Arg(self), Type_Name_Arg(cls),
+      $(String, (char*)method_name));
   }
 #endif
   
